@@ -164,6 +164,15 @@ def setup_process():
     logging.disable(logging.CRITICAL)
     if mp.current_process().name == "MainProcess":
         sandbox.remove_stale()
+    try:  # a runaway allocation in the code under test becomes a MemoryError, not an OOM kill
+        import resource
+
+        soft, hard = resource.getrlimit(resource.RLIMIT_AS)
+        lim = 6 * 1024 ** 3
+        if soft == resource.RLIM_INFINITY or soft > lim:
+            resource.setrlimit(resource.RLIMIT_AS, (lim, hard))
+    except Exception:  # noqa: BLE001
+        pass
 
 
 def obs_digest(obs) -> str:
